@@ -371,11 +371,14 @@ class Rewriter:
                 j += 1
             body_src = text[toks[j].end:toks[close].start].strip()
             if which in ("map", "map_or"):
-                if len(params) != 1 or params[0].kind != "ident":
+                if not params or any(pt.kind == "punct" and pt.text == "&" for pt in params):
                     raise ExtractError("R22: unsupported closure parameters in .map(..)")
-                pname = params[0].text
-                if pname == "_":
-                    pname = "vx_unused"
+                if len(params) == 1 and params[0].kind == "ident":
+                    pname = params[0].text
+                    if pname == "_":
+                        pname = "vx_unused"
+                else:
+                    pname = text[params[0].start:params[-1].end]      # a pattern such as `(_, s)`: used as the match pattern
             elif params:
                 raise ExtractError("R22: unwrap_or_else closure with parameters")
             # receiver: walk back to the start of the postfix expression
@@ -594,6 +597,61 @@ class Rewriter:
             elif tt.kind == "punct" and tt.text == "{" and depth == 0:
                 return k
         return -1
+
+    def iter_all_any(self, text):
+        """R25 (opt-in, `optiters`): `RECV.iter().all(|p| BODY)` / `.any(|p| BODY)` become an accumulating loop
+        `{ let mut vx_accN = true; for p in RECV.iter() { if !(BODY) { vx_accN = false; } } vx_accN }` (any: dual), so that the
+        predicate BODY stays real code and the template can give the loop an invariant (`//@loop`).  BODY must be pure."""
+        n = 0
+        while True:
+            toks = [t for t in tokenize(text) if t.kind not in ("ws", "comment")]
+            found = None
+            for k, t in enumerate(toks):
+                if (t.kind == "punct" and t.text == "." and k + 7 < len(toks) and toks[k + 1].text == "iter"
+                        and toks[k + 2].text == "(" and toks[k + 3].text == ")" and toks[k + 4].text == "."
+                        and toks[k + 5].kind == "ident" and toks[k + 5].text in ("all", "any") and toks[k + 6].text == "("
+                        and toks[k + 7].text == "|"):
+                    found = k
+                    break
+            if found is None:
+                return text
+            k = found
+            which = toks[k + 5].text
+            close = match_close(toks, k + 6)
+            j = k + 8
+            params = []
+            while toks[j].text != "|":
+                params.append(toks[j])
+                j += 1
+            if len(params) != 1 or params[0].kind != "ident":
+                raise ExtractError("R25: unsupported closure parameter in .%s(..)" % which)
+            body_src = text[toks[j].end:toks[close].start].strip()
+            depth = 0
+            r = k - 1
+            while r >= 0:
+                t = toks[r]
+                if t.kind == "punct" and t.text in CLOSE:
+                    depth += 1
+                elif t.kind == "punct" and t.text in OPEN:
+                    if depth == 0:
+                        break
+                    depth -= 1
+                elif depth == 0 and ((t.kind == "punct" and t.text in "=;,|&*!<>+-/") or
+                                     (t.kind == "ident" and t.text in ("return", "in", "if", "match", "let", "else"))):
+                    break
+                r -= 1
+            rs = toks[r + 1].start
+            recv = text[rs:toks[k].start].strip()
+            n += 1
+            acc = "vx_acc%d" % n
+            if which == "all":
+                repl = "{ let mut %s = true; for %s in %s.iter() { if (!(%s)) { %s = false; } } %s }" % (acc, params[0].text, recv, body_src, acc, acc)
+            else:
+                repl = "{ let mut %s = false; for %s in %s.iter() { if %s { %s = true; } } %s }" % (acc, params[0].text, recv, body_src, acc, acc)
+            whole = text[rs:toks[close].end]
+            repl = repl + "\n" * (whole.count("\n") - repl.count("\n"))
+            text = text[:rs] + repl + text[toks[close].end:]
+            self.count("R25 .iter().%s(closure) -> accumulating loop (predicate kept)" % which)
 
     def apply_maps(self, text, maps, what):
         for rx, repl in maps:
@@ -1035,6 +1093,8 @@ class Unit:
         body = rw.attrs(body)
         body = rw.drop_use_lines(body)
         body = rw.closure_wildcards(body)
+        if opts.get("optiters"):
+            body = rw.iter_all_any(body)
         if opts.get("optclosures"):
             body = rw.option_closures(body)
         body = rw.loop_continue(body)
